@@ -29,7 +29,7 @@ func TestVerifC13_FragMutex(t *testing.T) {
 		n := rapid.IntRange(1, vkit.Scale(20, 30)).Draw(t, "steps")
 		c := vkit.NewCase()
 		defer c.Done()
-		conflict, storedInBatch, storedLast, storedNotLast := false, false, false, false
+		conflict, storedInBatch, storedLast, storedNotLast, bigConflict := false, false, false, false, false
 		for i := 0; i < n; i++ {
 			l := fmt.Sprintf("s%d", i)
 			op := vgfGenOp(t, l, cfg, ws)
@@ -48,6 +48,9 @@ func TestVerifC13_FragMutex(t *testing.T) {
 						continue
 					}
 					conflict = true
+					if len(op.Cols) > 12 {
+						bigConflict = true
+					}
 					for _, r0 := range m.nonEmptyRows() {
 						if m.has(r0, col) && distinct[r0] {
 							storedInBatch = true
@@ -75,7 +78,8 @@ func TestVerifC13_FragMutex(t *testing.T) {
 		for p := range m.paths {
 			c.Class("path:" + p)
 		}
-		c.NT(storedInBatch)
+		c.ClassIf(bigConflict, "bigBatchRepeatsColumnWithDifferentRows")
+		c.NT(storedInBatch || bigConflict)
 		c.Sample(map[string]interface{}{"cfg": cfg.String(), "history": m.hist})
 	})
 }
